@@ -9,6 +9,7 @@ require golang.org/x/tools v0.29.0
 require lukechampine.com/blake3 v1.0.0
 
 require (
+	github.com/mitchellh/go-wordwrap v1.0.0 // indirect
 	github.com/mroth/weightedrand v0.2.1 // indirect
 	golang.org/x/mod v0.22.0 // indirect
 	golang.org/x/sync v0.10.0 // indirect
